@@ -66,7 +66,7 @@ def run(ck):
         ck.enum(p, ["--depth=1", "--kinds=all", "--mode=error"], "d1-all-error", batch=32, deadline_s=40, jobs=J)
         ck.enum(p, ["--depth=1", "--kinds=all", "--mode=throw"], "d1-all-throw", batch=32, deadline_s=40, jobs=J)
         ck.enum(p, ["--depth=2", "--kinds=mini", "--mode=error"], "d2-mini-error", batch=32, deadline_s=50, jobs=J)
-        ck.enum(a, ["--depth=1", "--kinds=core", "--mode=error"], "asan-d1-core-error", batch=16, deadline_s=60, jobs=J)
+        ck.enum(a, ["--depth=1", "--kinds=all", "--mode=error"], "asan-d1-all-error", batch=16, deadline_s=90, jobs=J)
         ck.enum(p, ["--part=share", "--big=3"], "share-boundary", batch=2, deadline_s=150, jobs=J, timeout_ms=700000)
         ck.enum(a, ["--part=share", "--big=3", "--noclones=1"], "asan-share-boundary", batch=2, deadline_s=150, jobs=J, timeout_ms=700000)
     else:
